@@ -123,13 +123,24 @@ def prepare_numba_states(log=print):
     final = os.path.join(base, key)
     states = {s: os.path.join(final, s) for s in ("serial_first", "parallel_first", "parallel_only")}
     if os.path.isdir(final) and all(os.path.isdir(p) and os.listdir(p) for p in states.values()):
+        try:
+            os.utime(final)  # in use: keep it away from the stale-state sweep
+        except OSError:
+            pass
         return states, 0.0
     t0 = time.monotonic()
     os.makedirs(base, exist_ok=True)
-    # drop stale states of other trees (disk is limited)
+    # drop stale states of other trees (disk is limited) - but never one a
+    # concurrently running check may be building or using
+    now = time.time()
     for name in os.listdir(base):
-        if name != key:
-            shutil.rmtree(os.path.join(base, name), ignore_errors=True)
+        p = os.path.join(base, name)
+        try:
+            age = now - os.stat(p).st_mtime
+        except OSError:
+            continue
+        if name != key and age > 6 * 3600:
+            shutil.rmtree(p, ignore_errors=True)
     tmp = os.path.join(base, f".{key}.{os.getpid()}")
     shutil.rmtree(tmp, ignore_errors=True)
     procs = []
